@@ -7,15 +7,17 @@ Differential driver for the `Stream` pipeline model (`drv pipeline`).
 case <id>
 src <vals> <err|->                 -- e.g.  src [1,E0:5,[1,2],(3,N)] E2:7
 op <name> <args…>                  -- in pipeline order
-obs full <vals> <end> <pulled>     -- what the real Stream did when consumed completely
-obs take <k> <vals> <end> <pulled> -- … when only k items were requested
+obs full <vals> <end> <pulled> <ended>     -- what the real Stream did when consumed completely
+obs take <k> <vals> <end> <pulled> <ended> -- … when only k items were requested
+nobs <n>                                   -- number of obs lines sent
 end
 ```
 `<end>` is `done`, `more` (the k requested items all arrived) or `E<tag>:<arg>`.
 For every observation the driver evaluates `semAll` and the pull machine (`takeK` over `next`)
-with the lazy oracle (`[]`) and the greedy oracle (always prefetch) and compares outputs, ending
-and pull count (`lazy ≤ observed ≤ greedy`; for chains of one-to-one operators also
-`observed ≤ handed + slack`).  Verdict per case: `ok <id> …` or `MISMATCH <id> …`.
+with the lazy oracle (`[]`) and the greedy oracle (always prefetch) and compares outputs, ending,
+pull count and whether the source was asked beyond its last element (`<ended>` = 0/1), the last two
+as `lazy ≤ observed ≤ greedy` (for chains of one-to-one operators the driver also checks its own
+`greedy ≤ handed + slack`).  Verdict per case: `ok <id> …` or `MISMATCH <id> …`.
 -/
 namespace Pipeline.Drv
 open Pipeline
@@ -179,11 +181,12 @@ structure RunRes where
   vals : List Val
   last : Option Resp
   pulled : Nat
+  ended : Nat       -- 1 iff the source was asked for more than it has
   handed : Nat      -- answers (values or an error) handed to the consumer
 
 def runK (ops : List Op) (vals : List Val) (err : Option Err) (orc : List Bool) (k : Nat) : RunRes :=
   let (vs, r, _, w) := takeK FUEL k (build ops) (World.init vals err orc)
-  { vals := vs, last := r, pulled := w.src.pulled,
+  { vals := vs, last := r, pulled := w.src.pulled, ended := if w.src.ended then 1 else 0,
     handed := vs.length + (match r with | some (.err _) => 1 | _ => 0) }
 
 def showEnd : Option Resp → String
@@ -213,7 +216,7 @@ def St.flag (st : St) (msg : String) : St :=
   | Option.none => { st with bad := some msg }
 
 /-- compare one observation of the real code with the model -/
-def checkObs (st : St) (k : Option Nat) (ovals : String) (oend : String) (opulled : Nat) : St :=
+def checkObs (st : St) (k : Option Nat) (ovals : String) (oend : String) (opulled oended : Nat) : St :=
   let st := { st with nobs := st.nobs + 1 }
   let total := st.vals.length
   let greedyOrc := List.replicate (50000 + total) true
@@ -241,6 +244,8 @@ def checkObs (st : St) (k : Option Nat) (ovals : String) (oend : String) (opulle
     st.flag s!"{what}: ending model={showEnd lazy.last} observed={oend}"
   else if opulled < lazy.pulled || greedy.pulled < opulled then
     st.flag s!"{what}: pulled observed={opulled} model lazy={lazy.pulled} greedy={greedy.pulled}"
+  else if oended < lazy.ended || greedy.ended < oended then
+    st.flag s!"{what}: source-end-reached observed={oended} model lazy={lazy.ended} greedy={greedy.ended}"
   else
     match chainSlack st.ops with
     | some sl =>
@@ -263,8 +268,14 @@ partial def loop (h : IO.FS.Stream) (st : St) : IO Unit := do
     match parseOp rest with
     | some op => loop h { st with ops := st.ops ++ [op] }
     | Option.none => loop h (st.flag s!"cannot parse op {rest}")
-  | ["obs", "full", vs, e, p] => loop h (checkObs st Option.none vs e (p.toNat?.getD 0))
-  | ["obs", "take", k, vs, e, p] => loop h (checkObs st (some (k.toNat?.getD 0)) vs e (p.toNat?.getD 0))
+  | ["obs", "full", vs, e, p, en] => loop h (checkObs st Option.none vs e (p.toNat?.getD 0) (en.toNat?.getD 0))
+  | ["obs", "take", k, vs, e, p, en] =>
+    loop h (checkObs st (some (k.toNat?.getD 0)) vs e (p.toNat?.getD 0) (en.toNat?.getD 0))
+  | "obs" :: rest => loop h (st.flag s!"malformed obs line {rest}")
+  | ["nobs", n] =>
+    -- the harness says how many observations it sent: none may get lost on the way
+    if n.toNat? == some st.nobs then loop h st
+    else loop h (st.flag s!"{st.nobs} observations checked but the harness sent {n}")
   | ["end"] =>
     if st.opened then
       match st.bad with
